@@ -276,8 +276,8 @@ impl Scenario for StreamPos {
                     let sibling = if op.k == K_TWICE { Some(guarded(|| hs[h].obj.fork()).map_err(|m| Violation::new("unexpected-panic", i, "clone", m, sp.v.name))?) } else { None };
                     let hd = &mut hs[h];
                     let got: Vec<u8> = if op.k == K_PROCESS_MUT {
-                        let mut buf = input.get().to_vec();
-                        match guarded(|| hd.obj.process_mut(&mut buf)) {
+                        let mut buf = Aligned::holding(input.get(), op.seed ^ 0x3131);
+                        match guarded(|| hd.obj.process_mut(buf.get_mut())) {
                             Ok(()) => {}
                             Err(_) if hd.refused => {
                                 obs.hit("observed.loud_failure_after_an_earlier_refusal");
@@ -286,11 +286,11 @@ impl Scenario for StreamPos {
                             }
                             Err(m) => return Err(Violation::new("unexpected-panic", i, "process_mut", m, sp.v.name)),
                         }
-                        buf
+                        buf.to_vec()
                     } else {
                         obs.hit("fault.dirty_destination");
-                        let mut out = data(op.seed ^ 0x7777, len);
-                        match guarded(|| hd.obj.process(input.get(), &mut out)) {
+                        let mut out = Aligned::dirty(op.seed ^ 0x7777, len);
+                        match guarded(|| hd.obj.process(input.get(), out.get_mut())) {
                             Ok(()) => {}
                             Err(_) if hd.refused => {
                                 obs.hit("observed.loud_failure_after_an_earlier_refusal");
@@ -299,7 +299,7 @@ impl Scenario for StreamPos {
                             }
                             Err(m) => return Err(Violation::new("unexpected-panic", i, "process", m, sp.v.name)),
                         }
-                        out
+                        out.to_vec()
                     };
                     obs.out(&got);
                     let tot = off + len;
